@@ -59,6 +59,7 @@ class Contract:
         volatile=(),
         body_of_loop=None,
         cuts=None,
+        slices=1,
     ):
         self.target = target
         self.params = dict(params or {})
@@ -92,6 +93,7 @@ class Contract:
         self.exit_asserts = list(exit_asserts)  # cuts: proved from the path condition at exit, then used for the ensures
         self.start_at = start_at  # region contract: execution starts at the first top-level statement starting with this text;
         # parameters and the locals declared in `locals=` are arbitrary values of their types there
+        self.slices = slices  # parallelism hint: the function's obligations are discharged by this many worker processes
         self.cuts = dict(cuts or {})  # statement anchor -> [exprs]: proved at that point (after the statement), then available as facts
         self.body_of_loop = body_of_loop  # region contract on ONE iteration of the loop with this ordinal (all locals arbitrary)
         self.volatile = list(volatile)  # field keys written concurrently by another thread: every read is havocked under the rely
